@@ -137,6 +137,15 @@ def boundary_cases():
         return t, base_cfg(input="glob-types"), "ok"
     cases.append(("glob-type-filters-with-hard-links", glob_types))
 
+    def forced_id(opt, val):
+        # --set-uid / --set-gid values that are no 32 bit id: refuse, do not store something else
+        def b(r):
+            t = {b"": Node("dir", 0o755), b"f": Node("file", 0o644, data=[("bytes", b"x")])}
+            return t, base_cfg(**{opt: val}), ("ok" if isinstance(val, int) and 0 <= val <= 0xFFFFFFFF else "refuse")
+        return b
+    for opt, val in (("set_uid", 4294967295), ("set_uid", 4294967296), ("set_gid", 4294967297), ("set_gid", "-2")):
+        cases.append(("%s-%s" % (opt, val if val != "" else "empty"), forced_id(opt, val)))
+
     def dev(maj, mi):
         def b(r):
             t = {b"": Node("dir", 0o755), b"c": Node("cdev", 0o600, dev=(maj, mi)), b"b": Node("bdev", 0o600, dev=(maj, mi))}
